@@ -517,7 +517,8 @@ impl ObjectIdentifierArc {
 
     pub(crate) fn well_known(name: Option<&String>, root: Option<u8>) -> Option<u128> {
         match (root, name.map(|s| s.as_str())) {
-            (_, Some("itu-t")) => Some(Self::ITU_T),
+            // `ccitt` is the older name of the arc `itu-t` (ITU-T X.660)
+            (_, Some("itu-t")) | (_, Some("ccitt")) => Some(Self::ITU_T),
             (_, Some("iso")) => Some(Self::ISO),
             (_, Some("joint-iso-itu-t")) => Some(Self::JOINT_ISO_ITU_T),
             (_, Some("joint-iso-ccitt")) => Some(Self::JOINT_ISO_CCITT),
